@@ -9,7 +9,8 @@ Import ListNotations.
 
 (* exit 0 exactly when the formats are usable, the expression parses, every
    file exists, every document decodes and evaluates, Encode returns nil for
-   every result, and -e (if given) saw a result other than null / false *)
+   every result AND the flush of its bytes to the output succeeds, and -e (if
+   given) saw a result other than null / false *)
 Theorem C19_exit0_iff_complete : forall c w,
   has_input c = true -> (o_exit (run c w) = 0%N <-> complete_run c w).
 Proof. exact exit0_iff_complete. Qed.
@@ -26,6 +27,14 @@ Theorem C19_exit0_output : forall c w fid rs,
 Proof. exact exit0_output. Qed.
 Print Assumptions C19_exit0_output.
 
+(* a failed write of any result to the output (full device, closed or read-only
+   stdout) is a failure: no exit 0 *)
+Theorem C19_failed_write_fails : forall c w fid rs r,
+  has_input c = true -> usable_formats c = Some fid -> expected c w = Some rs ->
+  In r rs -> w_flush_ok w (r_id r) = false -> o_exit (run c w) <> 0%N.
+Proof. exact failed_write_fails. Qed.
+Print Assumptions C19_failed_write_fails.
+
 (* any failure: non-zero exit and a message on stderr, and only then *)
 Theorem C19_stderr_iff_failure : forall c w,
   has_input c = true -> (o_stderr (run c w) = true <-> o_exit (run c w) <> 0%N).
@@ -36,7 +45,7 @@ Print Assumptions C19_stderr_iff_failure.
    or no result counts as a match (isTruthyNode) ... *)
 Theorem C19_e_flag : forall c w fid rs,
   has_input c = true -> c_exit_status c = true ->
-  usable_formats c = Some fid -> expected c w = Some rs -> all_encoded fid (c_nul c) rs = true ->
+  usable_formats c = Some fid -> expected c w = Some rs -> all_encoded (w_flush_ok w) fid (c_nul c) rs = true ->
   (o_exit (run c w) = 1%N <-> Forall (fun r => not_a_match (r_node r) = true) rs).
 Proof. exact e_flag. Qed.
 Print Assumptions C19_e_flag.
@@ -46,15 +55,17 @@ Print Assumptions C19_e_flag.
    used to count as a match; fixed in /repo, see KNOWN_FINDINGS) *)
 Theorem C19_e_flag_documented : forall c w fid rs,
   has_input c = true -> c_exit_status c = true ->
-  usable_formats c = Some fid -> expected c w = Some rs -> all_encoded fid (c_nul c) rs = true ->
+  usable_formats c = Some fid -> expected c w = Some rs -> all_encoded (w_flush_ok w) fid (c_nul c) rs = true ->
   Forall (fun r => bool_well_spelled (r_node r) = true) rs ->
   (o_exit (run c w) = 1%N <-> Forall (fun r => null_or_false (r_node r) = true) rs).
 Proof. exact e_flag_documented. Qed.
 Print Assumptions C19_e_flag_documented.
 
-(* -n: the outcome does not depend on any file or on stdin; files together with -n are rejected *)
+(* -n: the outcome does not depend on any file or on stdin (only on the expression and on whether
+   the output accepts the writes); files together with -n are rejected *)
 Theorem C19_n_reads_nothing : forall c w1 w2,
   c_null c = true -> w_expr_ok w1 = w_expr_ok w2 -> w_null_out w1 = w_null_out w2 ->
+  w_flush_ok w1 = w_flush_ok w2 ->
   run c w1 = run c w2.
 Proof. exact n_reads_nothing. Qed.
 Print Assumptions C19_n_reads_nothing.
@@ -83,7 +94,7 @@ Print Assumptions C19_format_names_resolve.
 (* refutations of the full statement on the faithful model *)
 Definition sc (s : string) : node := NScalar TagStr (str_of_string s).
 Definition w_one (n : node) : world :=
-  mkWorld (fun _ => Docs [DocOk (EvalOk [mkRes 1 n])]) true (EvalOk []) (EvalOk [mkRes 1 n]).
+  mkWorld (fun _ => Docs [DocOk (EvalOk [mkRes 1 n])]) true (EvalOk []) (EvalOk [mkRes 1 n]) (fun _ => true).
 Definition cli_o (o : string) (nul e : bool) : cli :=
   mkCli false [] (str_of_string o) false [str_of_string "f.yml"] false false false false None e nul.
 
@@ -131,7 +142,7 @@ Example C19_example :
      else Docs [DocOk (EvalOk [r 4%N])] in
   let c := mkCli false [] [] false [str_of_string "a.yml"; str_of_string "b.yml"; str_of_string "c.yml"]
                  false false false false None false false in
-  let w (bad : bool) := mkWorld (fs bad) true (EvalOk []) (EvalOk []) in
+  let w (bad : bool) := mkWorld (fs bad) true (EvalOk []) (EvalOk []) (fun _ => true) in
   has_input c = true /\
   run c (w true) = mkOut 1 [1; 2; 3]%N [1; 2; 3]%N true false /\
   run c (w false) = mkOut 0 [1; 2; 3; 4]%N [1; 2; 3; 4]%N false false /\
